@@ -33,6 +33,7 @@ HARNESS_MODULES = {
     "fpre.rs": "src/mpc/fpre.rs",
     "kos.rs": "src/ot_core/kos.rs",
     "file_or_mem_buf.rs": "src/utils/file_or_mem_buf.rs",
+    "state.rs": "crates/polytune-server-core/src/state.rs",
 }
 
 
@@ -44,14 +45,14 @@ def make_scratch(scratch, with_segments=True, log=None):
     """rsync /repo's working tree to `scratch`, normalise Cargo.toml, append harness modules."""
     os.makedirs(scratch, exist_ok=True)
     r = sh(
-        f"rsync -a --delete --exclude target --exclude .git --exclude /crates/polytune-server-core "
+        f"rsync -a --delete --exclude target --exclude .git "
         f"--exclude /crates/polytune-http-server --exclude examples "
         f"--exclude docs --exclude benches --exclude '*.png' --exclude '*.jpg' {REPO}/ {scratch}/"
     )
     if r.returncode != 0:
         raise RuntimeError("rsync failed: " + r.stderr)
     ct = open(os.path.join(scratch, "Cargo.toml")).read()
-    ct = re.sub(r"\[workspace\]\nmembers = \[.*?\]\n", "[workspace]\n", ct, flags=re.S)
+    ct = re.sub(r"\[workspace\]\nmembers = \[.*?\]\n", '[workspace]\nmembers = ["crates/polytune-server-core"]\n', ct, flags=re.S)
     ct = re.sub(r"\[\[bench\]\].*?required-features = \[[^\]]*\]\n", "", ct, flags=re.S)
     ct += (
         "\n[patch.crates-io]\n"
